@@ -793,7 +793,7 @@ def c07_battery(binary):
         snap0 = _snapshot(root)
 
         def check(tag, args, stdin=None):
-            r = subprocess.run([binary] + args, stdin=stdin, stdout=subprocess.PIPE, stderr=subprocess.PIPE, env=env, timeout=120, cwd=d)
+            r = subprocess.run([binary] + args, stdin=stdin, stdout=subprocess.PIPE, stderr=subprocess.PIPE, env=env, timeout=120, cwd=os.path.join(root, "y"))
             snap1 = _snapshot(root)
             if snap1 != snap0:
                 changed = sorted(k for k in set(snap0) | set(snap1) if snap0.get(k) != snap1.get(k))
@@ -803,8 +803,9 @@ def c07_battery(binary):
             if left:
                 devs.append({"cmd": tag, "temp_files_left": left[:3]})
             return r
-        for tr in ("cat", "cat $IN", "cp $IN $OUT", "dd if=$IN of=$OUT", "truncate -s 4 $IN", "sh -c true $IN"):
-            for extra in ([], ["--in-place"], ["--no-copy"] if "$IN" in tr and "truncate" not in tr else []):
+        for tr in ("cat", "cat $IN", "cp $IN $OUT", "dd if=$IN of=$OUT", "truncate -s 4 $IN", "sh -c true $IN", "dd of=$IN count=0 status=none", "dd of=$OUT status=none"):
+            writes_in = "truncate" in tr or "of=$IN" in tr          # the documented exception: such a program under --no-copy
+            for extra in ([], ["--in-place"], ["--no-copy"] if "$IN" in tr and not writes_in else []):
                 if extra == ["--in-place"] and "$OUT" in tr:
                     continue
                 check("group --transform '%s' %s" % (tr, " ".join(extra)), ["group", "--transform", tr] + extra + [root])
